@@ -547,3 +547,305 @@ class C12:
     @staticmethod
     def classify(case, v):
         return None
+
+
+# ---------------------------------------------------------------------- C20
+SAFE_URLS = ["http://tracker.example.com/announce", "udp://t1.example.org:6969/announce",
+             "https://example.net:443/ann?key=1&x=y", "http://ex.com/a+b", "http://exämple.com/ä",
+             "udp://[::1]:80/announce", "http://x.y/#frag", "http://h/p=q", "wss://tracker.example/socket",
+             "ftp://ftp.example.site/content", "http://h/a:b"]
+SAFE_WORDS = ["hello", "a comment with spaces", "Ünï cødé", "x", "SRC", "k=v", "semi;colon", "日本語", "a:b", "[x]"]
+
+
+def _c20_argv(case, path, out):
+    o = case["opts"]
+    lists, scalars = [], []
+    if o.get("announce"):
+        lists.append([case["flagnames"]["announce"]] + o["announce"])
+    if o.get("url_list"):
+        lists.append(["--web-seed"] + o["url_list"])
+    if o.get("httpseeds"):
+        lists.append(["--http-seed"] + o["httpseeds"])
+    if o.get("private"):
+        scalars.append([case["flagnames"]["private"]])
+    if o.get("source") is not None:
+        scalars.append([case["flagnames"]["source"], o["source"]])
+    if o.get("comment") is not None:
+        scalars.append([case["flagnames"]["comment"], o["comment"]])
+    if o.get("piece_length") is not None:
+        scalars.append(["--piece-length", str(o["piece_length"])])
+    if o.get("meta_version") is not None:
+        scalars.append(["--meta-version", o["meta_version"]])
+    if out is not None:
+        scalars.append([case["flagnames"]["out"], out])
+    if o.get("align"):
+        scalars.append(["--align"])
+    scalars.append(["--prog", "0"])
+    import random
+    rng = random.Random(case["order_seed"])
+    rng.shuffle(lists)
+    rng.shuffle(scalars)
+    pos = case["pos"]
+    flat = lambda groups: [x for g in groups for x in g]  # noqa: E731
+    head = [case["cmd"]] if case["cmd"] else []
+    if pos == "first" or (pos == "implicit"):
+        allg = lists + scalars
+        rng.shuffle(allg)
+        return head + [path] + flat(allg), "first"
+    if pos == "swallowed" and lists:
+        k = rng.randrange(len(lists))
+        before = lists[:k] + scalars[:len(scalars) // 2]
+        rng.shuffle(before)
+        after = lists[k + 1:] + scalars[len(scalars) // 2:]
+        rng.shuffle(after)
+        # the group right after the path must start with a flag (they all do)
+        return head + flat(before) + lists[k] + [path] + flat(after), "swallowed:" + lists[k][0]
+    if pos == "middle":
+        a = lists[:1] + scalars[:max(1, len(scalars) // 2)]
+        rng.shuffle(a)
+        # path must follow a scalar group
+        sc = [g for g in a if g[0] not in ("-a", "--announce", "--tracker", "--web-seed", "--http-seed")]
+        li = [g for g in a if g not in sc]
+        b = lists[1:] + scalars[max(1, len(scalars) // 2):]
+        rng.shuffle(b)
+        return head + flat(li) + flat(sc) + [path] + flat(b), "middle"
+    # last: path after a scalar group
+    return head + flat(lists) + flat(scalars) + [path], "last"
+
+
+def _c20_ini(case, out):
+    o = case["opts"]
+    lines = ["[config]"]
+    def multi(key, vals):
+        lines.append(f"{key} =")
+        for v in vals:
+            lines.append(f"    {v}")
+    if o.get("announce"):
+        multi(case["ininames"]["announce"], o["announce"])
+    if o.get("url_list"):
+        multi("web-seed", o["url_list"])
+    if o.get("httpseeds"):
+        multi("http-seed", o["httpseeds"])
+    if o.get("private"):
+        lines.append("private = true")
+    elif case.get("ini_private_false"):
+        lines.append("private = false")
+    if o.get("source") is not None:
+        lines.append(f"source = {o['source']}")
+    if o.get("comment") is not None:
+        lines.append(f"comment = {o['comment']}")
+    if o.get("piece_length") is not None:
+        lines.append(f"piece-length = {o['piece_length']}")
+    if o.get("meta_version") is not None:
+        lines.append(f"meta-version = {o['meta_version']}")
+    if out is not None:
+        lines.append(f"out = {out}")
+    if o.get("align"):
+        lines.append("align = true")
+    import random
+    body = lines[1:]
+    # keep multi-line groups intact while shuffling
+    groups, cur = [], []
+    for ln in body:
+        if ln.startswith("    "):
+            cur.append(ln)
+        else:
+            if cur:
+                groups.append(cur)
+            cur = [ln]
+    if cur:
+        groups.append(cur)
+    random.Random(case["order_seed"]).shuffle(groups)
+    return "\n".join(["[config]"] + [ln for g in groups for ln in g]) + "\n"
+
+
+class C20:
+    id = "C20"
+    quick, thorough = 400, 6000
+    timeout = 120
+    rule = ("case = random subset/values of {announce 1-3, web-seed, http-seed, private, source, comment, "
+            "piece-length, meta-version, out (file / dir/ / default), align} supplied (1) as CLI flags with the "
+            "content path first / middle / last / directly after a list-valued flag / with implicit create and "
+            "flag aliases, (2) as keys of a configuration file, (3) as library keywords; oracle: every option is "
+            "in its documented metafile field and the three span-decoded files are identical with creation date "
+            "masked; non-trivial when >= 2 options are set; distinct by (option subset, CLI order class, version, "
+            "out form)")
+    required = ("three_routes_compared", "config_route_executed", "swallowed_path_cases", "fields_checked",
+                "out_file_cases", "out_dir_cases")
+    assumptions = ("INI-unsafe values (%, leading/trailing blanks, newlines, the words true/false) are not generated",
+                   "documented configuration keys are the singular long option names of the manual's example")
+
+    @staticmethod
+    def gen(rng, tier, i):
+        o = {}
+        if rng.random() < 0.7:
+            o["announce"] = rng.sample(SAFE_URLS, rng.randint(1, 3))
+        if rng.random() < 0.45:
+            o["url_list"] = rng.sample(SAFE_URLS, rng.randint(1, 3))
+        if rng.random() < 0.4:
+            o["httpseeds"] = rng.sample(SAFE_URLS, rng.randint(1, 2))
+        if rng.random() < 0.4:
+            o["private"] = True
+        if rng.random() < 0.4:
+            o["source"] = rng.choice(SAFE_WORDS)
+        if rng.random() < 0.4:
+            o["comment"] = rng.choice(SAFE_WORDS)
+        if rng.random() < 0.6:
+            e = rng.choice([14, 15, 16])
+            o["piece_length"] = rng.choice([e, 2 ** e])
+        if rng.random() < 0.7:
+            o["meta_version"] = rng.choice(["1", "2", "3"])
+        if rng.random() < 0.35:
+            o["align"] = True
+        single = rng.random() < 0.25
+        pl = 16384
+        if single:
+            tree = gen.gen_tree(rng, pl, tier, layout="single", maxp=3, ascii_names=True)
+        else:
+            tree = gen.gen_tree(rng, pl, tier, layout=rng.choice(["flat", "nested", "empties"]), maxp=3)
+        return {"opts": o, "tree": tree, "out": rng.choice([None, "file", "file", "dir"]),
+                "pos": rng.choice(["first", "middle", "last", "swallowed", "swallowed", "implicit"]),
+                "cmd": None, "order_seed": rng.randrange(1 << 30),
+                "flagnames": {"announce": rng.choice(["-a", "--announce", "--tracker"]),
+                              "private": rng.choice(["-p", "--private"]), "source": rng.choice(["-s", "--source"]),
+                              "comment": rng.choice(["-c", "--comment"]), "out": rng.choice(["-o", "--out"])},
+                "ininames": {"announce": rng.choice(["announce", "announce", "tracker"])},
+                "ini_private_false": rng.random() < 0.3, "cmdword": rng.choice(["create", "new"]),
+                "lib_path_kw": rng.choice(["path", "content"]), "lib_pl_str": rng.random() < 0.5}
+
+    @staticmethod
+    def run(case, scratch):
+        torrent, commands = drive.mod("torrent"), drive.mod("commands")
+        reach = env.Reach()
+        reach.start({"commands.create": commands.create, "commands.parse_config_file": commands.parse_config_file,
+                     "commands.find_config_file": commands.find_config_file, "MetaFile.__init__": torrent.MetaFile.__init__})
+        env.install_enum_order("shuffle", case["order_seed"])
+        counters, viol = {}, []
+        tree = case["tree"]
+        base = os.path.join(scratch, "in")
+        root = os.path.join(base, tree["name"])
+        if tree["single"]:
+            materialise(base, [[tree["name"], tree["files"][0][1], tree["files"][0][2]]])
+        else:
+            materialise(root, tree["files"], tree["dirs"])
+        case = dict(case)
+        case["cmd"] = None if case["pos"] == "implicit" else case["cmdword"]
+        o = case["opts"]
+        raws, outs = {}, {}
+
+        def outspec(sub):
+            if case["out"] is None:
+                return None, os.path.join(sub, tree["name"] + ".torrent")
+            os.makedirs(os.path.join(sub, "o"), exist_ok=True)
+            if case["out"] == "file":
+                p = os.path.join(sub, "o", "x.torrent")
+                return p, p
+            return os.path.join(sub, "o") + "/", os.path.join(sub, "o", tree["name"] + ".torrent")
+
+        orderclass = None
+        for route in ("cli", "config", "lib"):
+            sub = os.path.join(scratch, route)
+            os.makedirs(sub)
+            os.chdir(sub)
+            outarg, expect = outspec(sub)
+            if route == "cli":
+                argv, orderclass = _c20_argv(case, root, outarg)
+                oc = drive.cli_execute(argv)
+            elif route == "config":
+                ini = os.path.join(sub, "cfg.ini")
+                with open(ini, "w", encoding="utf-8") as fd:
+                    fd.write(_c20_ini(case, outarg))
+                oc = drive.cli_execute(["create", "--config", "--config-path", ini, "--prog", "0", root])
+                counters["config_route_executed"] = 1
+            else:
+                kw = {case["lib_path_kw"]: root, "progress": 0}
+                for k in ("announce", "url_list", "httpseeds", "private", "source", "comment", "align"):
+                    if k in o:
+                        kw[k] = o[k]
+                if "piece_length" in o:
+                    kw["piece_length"] = str(o["piece_length"]) if case["lib_pl_str"] else o["piece_length"]
+                mv = o.get("meta_version", "1")
+                if "meta_version" in o:
+                    kw["meta_version"] = mv
+                if outarg is not None:
+                    kw["outfile"] = outarg
+                try:
+                    t = torrent.TorrentFile(**kw) if mv == "1" else torrent.TorrentAssembler(**kw)
+                    t.write()
+                    oc = drive.Outcome(ret=True)
+                except BaseException as exc:  # noqa
+                    import traceback
+                    oc = drive.Outcome(exc=exc, tb=traceback.format_exc())
+            os.chdir(scratch)
+            if not oc.ok:
+                viol.append(oracles.V("route-raised", route=route, exc=oc.excname(), tb=(oc.tb or "")[-1000:],
+                                      order=orderclass))
+                continue
+            if not os.path.isfile(expect):
+                produced = sorted(os.path.relpath(os.path.join(d, f), sub) for d, _, fs in os.walk(sub) for f in fs)
+                viol.append(oracles.V("metafile-not-at-out", route=route, expected=os.path.relpath(expect, sub),
+                                      files_in_route_dir=produced[:6], out=case["out"]))
+                continue
+            with open(expect, "rb") as fd:
+                raws[route] = fd.read()
+        if case["out"] == "file":
+            counters["out_file_cases"] = 1
+        elif case["out"] == "dir":
+            counters["out_dir_cases"] = 1
+        if orderclass and orderclass.startswith("swallowed"):
+            counters["swallowed_path_cases"] = 1
+        # documented fields (judged on every route that produced a file)
+        for route, raw in raws.items():
+            try:
+                top, info, _ = oracles.decode_meta(raw)
+            except Exception as e:
+                viol.append(oracles.V("undecodable", route=route, error=repr(e)))
+                continue
+            counters["fields_checked"] = counters.get("fields_checked", 0) + 1
+
+            def val(node):
+                return None if node is None else node.py()
+            exp = {}
+            if o.get("announce"):
+                exp["announce"] = (val(top.get(b"announce")), o["announce"][0].encode())
+                exp["announce-list"] = (val(top.get(b"announce-list")), [[u.encode() for u in o["announce"]]])
+            else:
+                exp["announce"] = (val(top.get(b"announce")), None)
+            exp["url-list"] = (val(top.get(b"url-list")), [u.encode() for u in o["url_list"]] if o.get("url_list") else None)
+            exp["httpseeds"] = (val(top.get(b"httpseeds")), [u.encode() for u in o["httpseeds"]] if o.get("httpseeds") else None)
+            exp["private"] = (val(info.get(b"private")), 1 if o.get("private") else None)
+            exp["source"] = (val(info.get(b"source")), o["source"].encode() if o.get("source") is not None else None)
+            exp["comment"] = (val(info.get(b"comment")), o["comment"].encode() if o.get("comment") is not None else None)
+            if "piece_length" in o:
+                p = o["piece_length"]
+                exp["piece length"] = (val(info.get(b"piece length")), p if p >= 16384 else 2 ** p)
+            mv = o.get("meta_version", "1")
+            ver = rt.meta_version(info)
+            exp["version"] = (ver, int(mv))
+            for field, (got, want) in exp.items():
+                if got != want:
+                    viol.append(oracles.V("option-not-in-documented-field", route=route, field=field,
+                                          got=got, want=want, order=orderclass))
+            if o.get("align") and mv == "1" and not tree["single"]:
+                plv = val(info.get(b"piece length"))
+                sizes = [l for _, l, p in rt.v1_entries(info) if not p]
+                needs = any(s % plv for s in sizes[:-1])
+                has = any(p for _, _, p in rt.v1_entries(info))
+                if needs and not has:
+                    viol.append(oracles.V("align-not-applied", route=route))
+        if len(raws) == 3:
+            counters["three_routes_compared"] = 1
+            masked = {r: mask_creation_date(raw) for r, raw in raws.items()}
+            if not (masked["cli"] == masked["config"] == masked["lib"]):
+                diff = [r for r in ("config", "lib") if masked[r] != masked["cli"]]
+                viol.append(oracles.V("routes-differ", differing_from_cli=diff, order=orderclass,
+                                      lens={r: len(m) for r, m in masked.items()}))
+        nopt = len(o) + (1 if case["out"] else 0)
+        return {"violations": viol, "counters": counters, "reach": reach.collect(), "nontrivial": nopt >= 2,
+                "sig": [sorted(o), orderclass, o.get("meta_version", "1"), case["out"]],
+                "sample": {"options": o, "out": case["out"], "cli_order": orderclass,
+                           "routes_with_output": sorted(raws), "violations": len(viol)}}
+
+    @staticmethod
+    def classify(case, v):
+        return None
